@@ -263,6 +263,72 @@ example : convertStringF .d (strtoDec binary64) [49, 101, 51, 57] false = .ok (n
 example : (Generated.Text.numberDispatch.filter (fun x => x.1 ∈ [102, 100, 101])).map (·.2.1) =
     ["mpt_cfloat", "mpt_cdouble", "mpt_cldouble"] := by decide
 
+def tokVerdict : TextRes → Verdict
+  | .ok (some _, _) => .accepted
+  | .ok (none, _) => .refused
+  | .err _ => .refused
+  | _ => .broken
+
+/-- A number read from a text file through the file iterator (`fileToken`: the element converts the token with
+    `mpt_convert_number`), integer targets: never undefined; the verdict does not depend on the destination; an accepted
+    read converted a prefix of the token that is a numeral of a number in the target's range, and the object handed
+    out denotes exactly that number — never a wrapped or saturated one ("300" is no uint8, "-1" no unsigned). -/
+theorem file_token_exact (tgt : Ty) (ht : tgt ∈ textTargets) (strto : List Nat → StrToF) (s : List Nat) (d : Bool) :
+    verdict (fileToken tgt strto s d) ≠ .broken ∧
+    verdict (fileToken tgt strto s false) = verdict (fileToken tgt strto s true) ∧
+    ∀ o n, fileToken tgt strto s d = .ok (o, n) →
+      (d = false → o = none) ∧
+      (d = true → ∃ bits k v, o = some (.int bits) ∧ numeral (s.take k) = some v ∧ inRange tgt v ∧ denote tgt bits = v) := by
+  obtain ⟨hnb, hok, _⟩ := text_int_exact tgt ht s true
+  have hc : ¬ (tgt = .c ∨ tgt = .e) := by
+    intro h; rcases h with h | h <;> subst h <;> simp [textTargets] at ht
+  have hf : tgt.isFloat = false := by cases tgt <;> simp [textTargets] at ht <;> rfl
+  have hv : ∀ d', verdict (fileToken tgt strto s d') = tokVerdict (convertNumber tgt s true) := by
+    intro d'
+    simp only [fileToken, hc, hf, if_false, Bool.false_eq_true]
+    cases hcn : convertNumber tgt s true with
+    | ok r => obtain ⟨o, n⟩ := r; cases o <;> simp [verdict, tokVerdict]
+    | err e => cases e <;> simp [verdict, tokVerdict]
+    | null => rfl
+    | oob => rfl
+    | fault => rfl
+  refine ⟨?_, by rw [hv false, hv true], ?_⟩
+  · rw [hv d]
+    cases hcn : convertNumber tgt s true with
+    | ok r => obtain ⟨o, n⟩ := r; cases o <;> simp [tokVerdict]
+    | err e => simp [tokVerdict]
+    | null => simp [hcn, verdict] at hnb
+    | oob => simp [hcn, verdict] at hnb
+    | fault => simp [hcn, verdict] at hnb
+  · intro o n h
+    simp only [fileToken, hc, hf, if_false, Bool.false_eq_true] at h
+    cases hcn : convertNumber tgt s true with
+    | ok r =>
+      obtain ⟨ob, k⟩ := r
+      cases ob with
+      | none => simp [hcn] at h
+      | some bits =>
+        simp only [hcn, Res.ok.injEq, Prod.mk.injEq] at h
+        obtain ⟨ho, _⟩ := h
+        have hT := hok (some bits) k hcn
+        obtain ⟨_, hT⟩ := hT
+        rcases hT with ⟨hnone, _⟩ | ⟨v, hnum, hrange, hst⟩
+        · cases hnone
+        · rcases hst with ⟨_, b, hb, hden⟩ | ⟨hd, _⟩
+          · simp only [Option.some.injEq] at hb
+            subst hb
+            refine ⟨fun hd => by simp [hd] at ho; exact ho.symm, fun hd => ?_⟩
+            simp only [hd, if_true] at ho
+            exact ⟨bits, k, v, ho.symm, hnum, hrange, hden⟩
+          · cases hd
+    | err e => cases e <;> simp [hcn] at h
+    | null => simp [hcn] at h
+    | oob => simp [hcn] at h
+    | fault => simp [hcn] at h
+
+example : fileToken .y (fun _ => ⟨.nan, 0, false, false⟩) [51, 48, 48] true = .err .BadType ∧
+    fileToken .y (fun _ => ⟨.nan, 0, false, false⟩) [50, 48, 48] true = .ok (some (.int 200), 128) := by decide
+
 /-- the target types of the `mpt_c*` integer wrappers: the fixed-width ones and the native `char`, `int`, `long`,
     `unsigned char`, `unsigned int`, `unsigned long` (LP64: sizes from the regenerated table) -/
 def wrapperTys : List (String × Ty) :=
@@ -424,6 +490,31 @@ theorem value_convert_exact (src tgt : Ty) (hs : src ∈ Ty.ints) (ht : tgt ∈ 
     | oob => rfl
     | fault => rfl
   rw [hv false, hv true, hq]
+
+/-- an accepted conversion of a missing source stored the number 0 (nothing in query mode) -/
+def storesZero (d : Bool) : Res (Option Out × Nat) → Bool
+  | .ok (some (.int b), _) => d && b == 0
+  | .ok (some (.flt x), _) => d && x.same (.fin false 0 0)
+  | .ok (none, _) => !d
+  | _ => true
+
+/-- A value without data (`_addr = NULL`; all 12 x 12 pairs) through the converter and through `mpt_value_convert`:
+    never a fault, the query has the verdict of the storing call, and an accepted conversion stored the number 0 — the
+    raw copy of an identical type is not attempted without a source (c -> c: 0 is not printable, so it is refused). -/
+theorem value_convert_null (src tgt : Ty) (d : Bool) :
+    verdict (convNull src tgt d) ≠ .broken ∧ verdict (valueConvertNull src tgt d) ≠ .broken ∧
+    verdict (valueConvertNull src tgt false) = verdict (valueConvertNull src tgt true) ∧
+    storesZero d (convNull src tgt d) = true ∧ storesZero d (valueConvertNull src tgt d) = true := by
+  have h : ∀ ts ∈ Ty.all, ∀ tt ∈ Ty.all, ∀ b ∈ [true, false],
+      (verdict (convNull ts tt b) != .broken && verdict (valueConvertNull ts tt b) != .broken &&
+        verdict (valueConvertNull ts tt false) == verdict (valueConvertNull ts tt true) &&
+        storesZero b (convNull ts tt b) && storesZero b (valueConvertNull ts tt b)) = true := by decide +kernel
+  have := h src (by cases src <;> simp [Ty.all]) tgt (by cases tgt <;> simp [Ty.all]) d (by cases d <;> simp)
+  simp only [Bool.and_eq_true, bne_iff_ne, ne_eq, beq_iff_eq] at this
+  obtain ⟨⟨⟨⟨h1, h2⟩, h3⟩, h4⟩, h5⟩ := this
+  exact ⟨h1, h2, h3, h4, h5⟩
+
+example : valueConvertNull .c .c true = .err .MissingData ∧ valueConvertNull .i .x true = .ok (some (.int 0), 3) := by decide
 
 /-- c -> c with a non-printable value: the converter refuses, `mpt_value_convert` copies the character -/
 example : conv .c .c (.int 7) true = .err .BadValue ∧ valueConvert .c .c (.int 7) true = .ok (some (.int 7), 0) := by decide
